@@ -71,47 +71,53 @@ def sdo_jobs(h, quick):
 PROPS["C04"] = {
     "level": "model_checking",
     "technique": "explicit-state BFS over the full SDO command alphabet against the real server with an allowed-set reference server",
-    "text": 'BFS over the real SDO server(s) with an alphabet of ~630 request frames (all 256 command bytes; initiate requests of every kind to every object class incl. missing index/sub-index, RO/WO, node-id relative, domains smaller/larger than the buffer, strings, range- and user-abort types, with size fields =,<,>,0; acknowledges for all ackseq x blksize classes), in lockstep with a reference server that yields the set of admissible responses per protocol state. Per step: number of response frames, multiplexer, abort code, toggle/size/last flags, data, and the complete dictionary image are compared. The scaled-buffer build (3 segments) is explored to a fixpoint under a coarse state identity; fine state identity to depth 2-3; a "residue" state identity that keeps the cursors, counters and flags finished transfers leave behind (only buffer bytes and multiplexer dropped) to depth 5 (quick) / 8 or the deadline (thorough); the real 127-segment buffer and a two-server build to a depth bound.',
+    "text": 'BFS over the real SDO server(s) with an alphabet of ~630 request frames (all 256 command bytes; initiate requests of every kind to every object class incl. missing index/sub-index, RO/WO, node-id relative, domains smaller/larger than the buffer, strings, range- and user-abort types, with size fields =,<,>,0; acknowledges for all ackseq x blksize classes), in lockstep with a reference server that yields the set of admissible responses per protocol state. Per step: number of response frames, multiplexer, abort code, toggle/size/last flags, data, and the complete dictionary image are compared. The scaled-buffer build (3 segments) is explored to a fixpoint under a coarse state identity; fine state identity to depth 2-3; a "residue" state identity that keeps the cursors, counters and flags finished transfers leave behind (only buffer bytes and multiplexer dropped) to depth 5 (quick) / 8 or the deadline (thorough); the real 127-segment buffer and a two-server build to a depth bound. The dictionary holds 1010h with two parameter groups (reset types communication and node) whose NVM images differ from RAM: no SDO access may load them. Refusals that come from the type of the object written - 0604 0043h of the heartbeat consumer 1016h, 0604 0041h/0042h of the PDO mapping records - are decided by the C11 and C14 explorations (two consumer tables, PDO pair #0 and the mapping-procedure enumeration c14map), which are part of this check.',
     "note": 'coarse state identity zeroes fields the next initiate re-initialises (assumed dead; cross-checked by the fine explorations to their depth); application data is rewritten to its initial value whenever all servers are idle; requests in block-download phases are judged as segments (CiA 301 cannot tell them apart); out-of-protocol non-initiate requests only need exactly one answer',
     "jobs": {"quick": sdo_jobs("c04", True), "thorough": sdo_jobs("c04", False)},
 }
 
+# values rejected by the type of the object written (incompatibility 0604 0043h of the heartbeat consumer, mapping 0604 0041h/0042h of the PDO mapping
+# records): the verdicts, codes and 'changes nothing' of those writes are judged by the C11 and C14 models, whose explorations are part of this check
+PROPS["C04"]["jobs"]["quick"] += [J("c11", 1, depth=6, deadline=100), J("c11", 3, depth=5, deadline=100), J("c14", 0, depth=6, deadline=100), J("c14map", 0), J("c14map", 1)]
+PROPS["C04"]["jobs"]["thorough"] += [J("c11", 1, depth=8, deadline=600, max_states=30000000), J("c11", 3, depth=7, deadline=600, max_states=30000000), J("c14", 0, depth=7, deadline=600, max_states=20000000), J("c14map", 0), J("c14map", 1)]
+
 PROPS["C05"] = {
     "level": "model_checking",
     "technique": "reachability closure of the real SDO server under the full command alphabet + recovery probes (abort / reset communication, then clean transfers) in every reachable state, differential against a fresh node",
-    "text": 'The C04 exploration (closed state space of the scaled-buffer server) with a recovery probe in every discovered state: on a copy of the state, [client abort] resp. [NMT reset communication] followed by each of 7 clean transfers (expedited/segmented/block up- and downloads of integers, domains below and above the buffer size, strings; with a lost block segment and a partial block acknowledge). Each must succeed with correct data and its complete frame trace must equal the trace of the same transfer on a freshly initialised node; the reference server runs in lockstep.',
+    "text": 'The C04 exploration (closed state space of the scaled-buffer server) with a recovery probe in every discovered state: on a copy of the state, [client abort] resp. [NMT reset communication] followed by each of 7 clean transfers (expedited/segmented/block up- and downloads of integers, domains below and above the buffer size, strings; with a lost block segment and a partial block acknowledge). Each must succeed with correct data and its complete frame trace must equal the trace of the same transfer on a freshly initialised node; the reference server runs in lockstep. The dictionary holds 1010h with two parameter groups (reset types communication and node) whose NVM images differ from RAM, so that a transfer which reloads a group - a download that was confirmed and is silently undone - shows as a changed dictionary.',
     "note": 'same reductions as C04; probes run after application data has been rewritten to its initial values (the comparison is about protocol behaviour)',
     "jobs": {"quick": sdo_jobs("c05", True), "thorough": sdo_jobs("c05", False)},
 }
 
 REAL4K = ["SDO_DS2=4000"]
+BIG = ["SDO_DS2=131200"]      # objects whose length needs more than 16 bits
 TWO = ["CO_SSDO_N=2", "SDO_DS2=1000"]
 PROPS["C02"] = {
     "level": "model_checking",
     "technique": "deviation-bounded exhaustive enumeration of conforming download clients (all modes, size indications, last-segment fills, lost-segment placements, two-server interleavings) against the real server with the reference server in lockstep",
-    "text": 'Every conforming download dialogue of the enumerated space is executed against the real server (real 889-byte buffer): domain sizes 1..30, 7k+-1 up to 71, 885..900, 1777..1780, 2000, 3999, 4000 (quick: 28 of them) x payload length {S, S-1, 1, S+1} x {expedited s=1/s=0, segmented, block} x size announced or not, position-dependent payload; block mode additionally with every placement of <=1 (quick) / <=2 (thorough) lost segment transmissions followed by the prescribed retransmission; integers direct/referenced/node-id-relative (incl. direct 8/16/32-bit objects whose content is 0) with lengths size-1..size+1; two servers: every interleaving of a scripted transfer on the second server with a segmented or block transfer on the first, and with the roles swapped (the long transfer on server 1 while server 0 is idle or busy); non-initial states: the dialogues (11 sizes quick / the size list up to 900 thorough, lengths S and S-1, all modes, block mode with every single lost transmission for S <= 100) are repeated after an earlier transfer to the same object - segmented or block download, segmented or block upload - that the client completed or abandoned with a client abort after k = 1..4 (quick) / 1..7 (thorough) requests. Oracle: reference server in lockstep (every response field CiA 301 fixes) plus end-to-end comparison of the object bytes, untouched tail and refusal of over-long payloads.',
+    "text": 'Every conforming download dialogue of the enumerated space is executed against the real server (real 889-byte buffer): domain sizes 1..30, 7k+-1 up to 71, 885..900, 1777..1780, 2000, 3999, 4000 (quick: 28 of them) x payload length {S, S-1, 1, S+1} x {expedited s=1/s=0, segmented, block} x size announced or not, position-dependent payload; block mode additionally with every placement of <=1 (quick) / <=2 (thorough) lost segment transmissions followed by the prescribed retransmission; integers direct/referenced/node-id-relative (incl. direct 8/16/32-bit objects whose content is 0) with lengths size-1..size+1; two servers: every interleaving of a scripted transfer on the second server with a segmented or block transfer on the first, and with the roles swapped (the long transfer on server 1 while server 0 is idle or busy); non-initial states: the dialogues (11 sizes quick / the size list up to 900 thorough, lengths S and S-1, all modes, block mode with every single lost transmission for S <= 100) are repeated after an earlier transfer to the same object - segmented or block download, segmented or block upload - that the client completed or abandoned with a client abort after k = 1..4 (quick) / 1..7 (thorough) requests; domains whose length does not fit 16 bits: {65535, 65536, 65543, 70000} (thorough: and 131072, 131079) bytes x payload {S-1, S, S+1} x segmented / block x announced or not, block mode with one lost transmission at 12 places (first blocks, around the segment that carries byte 65536, end of the transfer) and a second loss in the following block. Oracle: reference server in lockstep (every response field CiA 301 fixes) plus end-to-end comparison of the object bytes, untouched tail and refusal of over-long payloads.',
     "note": 'losing the final segment of a block is not recoverable by a conforming client and is excluded; for 4000-byte transfers the second loss is placed in the neighbourhood of the first and at block boundaries',
     "jobs": {
-        "quick": [J("c02", 0, defs=REAL4K, deadline=120), J("c02", 1, defs=REAL4K), J("c02", 2, defs=TWO, deadline=120), J("c02", 3, defs=REAL4K, deadline=120)],
-        "thorough": [J("c02", 0, defs=REAL4K, deadline=1500), J("c02", 1, defs=REAL4K), J("c02", 2, defs=TWO, deadline=900), J("c02", 3, defs=REAL4K, deadline=900)],
+        "quick": [J("c02", 0, defs=REAL4K, deadline=120), J("c02", 1, defs=REAL4K), J("c02", 2, defs=TWO, deadline=120), J("c02", 3, defs=REAL4K, deadline=120), J("c02", 4, defs=BIG, deadline=120)],
+        "thorough": [J("c02", 0, defs=REAL4K, deadline=1500), J("c02", 1, defs=REAL4K), J("c02", 2, defs=TWO, deadline=900), J("c02", 3, defs=REAL4K, deadline=900), J("c02", 4, defs=BIG, deadline=900)],
     },
 }
 
 PROPS["C03"] = {
     "level": "model_checking",
     "technique": "deviation-bounded exhaustive enumeration of conforming upload clients (segmented; block with every block size, every acknowledge position per block, block size changes) against the real server with the reference server in lockstep",
-    "text": 'Every conforming upload dialogue of the enumerated space runs against the real server: domains and strings of the C02 size list with two contents each, integers (referenced, direct, node-id relative, direct with content 0 in all three widths) and fixed strings; segmented/expedited as the server chooses; block mode with every block size 1..127 (sizes <= 200; {1,2,3,7,63,64,126,127} above) and, per block, every acknowledge position k in 0..sent combined with a block size change in {1,2,b-1,b+1,127} - one deviation per transfer (quick) or two (thorough, sizes <= 200); each transfer is run twice back-to-back; non-initial states: uploads (segmented, block sizes {1,2,3,7,127}, first block acknowledged fully / not at all / partly) repeated after an earlier transfer - segmented or block download to another object, segmented or block upload of the same object - that the client completed or abandoned with a client abort after k = 1..4 (quick) / 1..7 (thorough) requests. Oracle: reference server in lockstep (sequence numbers, last flag, n, announced size, data per segment) plus end-to-end comparison of the assembled bytes and length.',
+    "text": 'Every conforming upload dialogue of the enumerated space runs against the real server: domains and strings of the C02 size list with two contents each, integers (referenced, direct, node-id relative, direct with content 0 in all three widths) and fixed strings; segmented/expedited as the server chooses; block mode with every block size 1..127 (sizes <= 200; {1,2,3,7,63,64,126,127} above) and, per block, every acknowledge position k in 0..sent combined with a block size change in {1,2,b-1,b+1,127} - one deviation per transfer (quick) or two (thorough, sizes <= 200); each transfer is run twice back-to-back; non-initial states: uploads (segmented, block sizes {1,2,3,7,127}, first block acknowledged fully / not at all / partly) repeated after an earlier transfer - segmented or block download to another object, segmented or block upload of the same object - that the client completed or abandoned with a client abort after k = 1..4 (quick) / 1..7 (thorough) requests; objects whose length does not fit 16 bits: domains and strings of {65534, 65535, 65536, 65537, 65543, 70000} (thorough: and 131071, 131072, 131079) bytes, segmented and block sizes {127, 64, 1} (thorough: and 2), one deviation (acknowledge position x next block size) in the first block, around the block that carries byte 65536 and in the last two blocks. Oracle: reference server in lockstep (sequence numbers, last flag, n, announced size, data per segment) plus end-to-end comparison of the assembled bytes and length.',
     "note": 'deviations are placed in the first 64 blocks of a transfer; quick tier uses boundary acknowledge positions for objects > 200 bytes',
     "jobs": {
-        "quick": [J("c03", c, defs=REAL4K, deadline=150) for c in range(3, 17)] + [J("c03", 2, defs=REAL4K), J("c03", 17, defs=REAL4K, deadline=150)],
-        "thorough": [J("c03", c, defs=REAL4K, deadline=1500) for c in range(3, 17)] + [J("c03", 2, defs=REAL4K), J("c03", 17, defs=REAL4K, deadline=900)],
+        "quick": [J("c03", c, defs=REAL4K, deadline=150) for c in range(3, 17)] + [J("c03", 2, defs=REAL4K), J("c03", 17, defs=REAL4K, deadline=150), J("c03", 18, defs=BIG, deadline=150), J("c03", 19, defs=BIG, deadline=150)],
+        "thorough": [J("c03", c, defs=REAL4K, deadline=1500) for c in range(3, 17)] + [J("c03", 2, defs=REAL4K), J("c03", 17, defs=REAL4K, deadline=900), J("c03", 18, defs=BIG, deadline=1500), J("c03", 19, defs=BIG, deadline=1500)],
     },
 }
 
 PROPS["C09"] = {
     "level": "model_checking",
     "technique": "explicit-state BFS to a fixpoint over NMT commands, API mode changes and one probe frame per service, against a reference CiA 301 slave state machine with a per-state gating table",
-    "text": "Node with one of every service (SDO server, asynchronous RPDO, event and synchronous TPDO, SYNC consumer, heartbeat producer and consumer, EMCY, LSS). Alphabet: NMT command specifiers {1,2,128,129,130,0,3,127,255} x target {own id, 0, other, 80h | own id, 80h}; LSS switch + configure node-id 7 + store (the node id changes at the next reset: NMT addressing, SDO identifiers, boot-up and heartbeat must follow, the old SDO identifier becomes foreign); CONmtSetMode, CONodeStart, CONmtReset(node/com), CONodeStop; probe frames for SDO, RPDO, SYNC, heartbeat of a monitored and an unmonitored node, LSS switch/inquire, a foreign identifier, the node's own transmit identifiers and three identifiers that equal a served one (NMT, SDO, RPDO) in their low 11 bits only; COEmcySet/Clr, COTPdoTrigPdo, tick. After every step: node mode, the sequence of mode-change callbacks, the reset-request callback, the number and content of boot-up frames, which service reacted (frames per identifier, mapped object, PDO callback), and how often the frame was handed to the application callback are compared with the reference. The reachable state set is closed (fixpoint) for node ids 1, 5 and 127, started and unstarted. A fifth configuration replaces the heartbeat services by a TPDO that lives on timers (event time 3 ticks, inhibit time 2 ticks, application trigger): its frames may appear only while the reference FSM is OPERATIONAL, whichever timer or trigger path produces them.",
+    "text": "Node with one of every service (SDO server, asynchronous RPDO, event and synchronous TPDO, SYNC consumer, heartbeat producer and consumer, EMCY, LSS). Alphabet: NMT command specifiers {1,2,128,129,130,0,3,127,255} x target {own id, 0, other, 80h | own id, 80h}; LSS switch + configure node-id 7 + store (the node id changes at the next reset: NMT addressing, SDO identifiers, boot-up and heartbeat must follow, the old SDO identifier becomes foreign); CONmtSetMode, CONodeStart, CONmtReset(node/com), CONodeStop; probe frames for SDO, RPDO, SYNC, heartbeat of a monitored and an unmonitored node, LSS switch/inquire, a foreign identifier, the node's own transmit identifiers and three identifiers that equal a served one (NMT, SDO, RPDO) in their low 11 bits only; COEmcySet/Clr, COTPdoTrigPdo, tick. After every step: node mode, the sequence of mode-change callbacks, the reset-request callback, the number and content of boot-up frames, which service reacted (frames per identifier, mapped object, PDO callback), and how often the frame was handed to the application callback are compared with the reference. The reachable state set is closed (fixpoint) for node ids 1, 5 and 127, started and unstarted. A fifth configuration replaces the heartbeat services by a TPDO that lives on timers (event time 3 ticks, inhibit time 2 ticks, application trigger): its frames may appear only while the reference FSM is OPERATIONAL, whichever timer or trigger path produces them. Identifier sweep: in every reachable state of all five configurations a frame on each of the 2047 base-format identifiers the node has no service for (all but NMT, SYNC, the RPDO, the SDO request, the monitored node's heartbeat and LSS; payload reading as a heartbeat / NMT command for this node, thorough: also eight FFh bytes) must reach the application callback exactly once (at most once in STOPPED), send nothing, cause no other callback and leave the node's memory byte for byte as it was.",
     "note": "heartbeat timing is not compared here (C10), only content and at most one per tick; in STOPPED the delivery of unclaimed frames to the application is unconstrained as the statement says; after CONodeStop only safety is judged; NMT frames carry DLC 2",
     "jobs": {
         "quick": [J("c09", c, depth=80, deadline=120) for c in range(5)],
@@ -122,11 +128,11 @@ PROPS["C09"] = {
 PROPS["C10"] = {
     "level": "model_checking",
     "technique": "explicit-state BFS over ticks, 1017h writes (SDO and API), NMT commands and every other timer user as interference, against a reference heartbeat schedule",
-    "text": "Node with heartbeat producer, one heartbeat consumer, SYNC (producer switchable), an event-driven TPDO with inhibit and event time, and an application timer. 30 events: tick; 1017h := {0,1,2,3} periods by SDO and by CODictWrWord; NMT start/stop/pre-op/reset communication/reset node; SDO writes to 1800h:1/:2/:3/:5, 1005h, 1006h, 1016h:1; COTPdoTrigPdo; a changed asynchronous mapped object; application COTmrCreate/COTmrDelete; heartbeat of the monitored node (its timeouts interleave). After every step the heartbeat frames (count, DLC, state byte) must equal the reference schedule: exactly one frame every period counted from the last accepted write or reset, none otherwise. 1 kHz and 100 Hz timers, node ids 1 and 10; a fifth configuration starts OPERATIONAL with the producer off and a TPDO event time of one tick, so that histories of six events reach a timer id wandering from the TPDO to the producer (event expiry outside OPERATIONAL, producer started, TPDO re-initialised). Long periods on fast timers (c10long): heartbeat times {3000, 6554, 10000, 32768, 65535} ms at {1, 2, 10, 20} kHz - up to 1.3 million ticks per period - alone and with another timer user armed, elapsing or deleted while the producer has more than 65535 ticks to go (TPDO event timer, short application timer, longer application timer deleted, SYNC producer); the first two heartbeats must come exactly one and two periods after the write.",
+    "text": "Node with heartbeat producer, one heartbeat consumer, SYNC (producer switchable), an event-driven TPDO with inhibit and event time, and an application timer. 30 events: tick; 1017h := {0,1,2,3} periods by SDO and by CODictWrWord; NMT start/stop/pre-op/reset communication/reset node; SDO writes to 1800h:1/:2/:3/:5, 1005h, 1006h, 1016h:1; COTPdoTrigPdo; a changed asynchronous mapped object; application COTmrCreate/COTmrDelete; heartbeat of the monitored node (its timeouts interleave). After every step the heartbeat frames (count, DLC, state byte) must equal the reference schedule: exactly one frame every period counted from the last accepted write or reset, none otherwise. 1 kHz and 100 Hz timers, node ids 1 and 10; a fifth configuration starts OPERATIONAL with the producer off and a TPDO event time of one tick, so that histories of six events reach a timer id wandering from the TPDO to the producer (event expiry outside OPERATIONAL, producer started, TPDO re-initialised). Long periods on fast timers (c10long): heartbeat times {3000, 6554, 10000, 32768, 65535} ms at {1, 2, 10, 20} kHz - up to 1.3 million ticks per period - alone and with another timer user armed, elapsing or deleted while the producer has more than 65535 ticks to go (TPDO event timer, short application timer, longer application timer deleted, SYNC producer); the first two heartbeats must come exactly one and two periods after the write. Crowded timer list (c10long cfg 1): every sequence of up to 6 (7) operations over {application one-shot of 2, 4, 9, 13, 30 ticks, cyclic application timer of 3 and of 10 ticks, tick, 1017h := 7 ms} with exactly one write - the producer's event is queued before, between and behind up to five pending events of other users - after which the heartbeats must come exactly 7, 14, 21 and 28 ticks after the write.",
     "note": "depth-bounded (no fixpoint: the product with the other timer users is large); other frames of a step are ignored here",
     "jobs": {
-        "quick": [J("c10", 0, depth=7, deadline=100), J("c10", 1, depth=6, deadline=100), J("c10", 2, depth=6, deadline=100), J("c10", 3, depth=6, deadline=100), J("c10", 4, depth=6, deadline=100), J("c10", 5, depth=6, deadline=100), J("c10long")],
-        "thorough": [J("c10", c, depth=10, deadline=1200, max_states=30000000) for c in range(6)] + [J("c10long")],
+        "quick": [J("c10", 0, depth=7, deadline=100), J("c10", 1, depth=6, deadline=100), J("c10", 2, depth=6, deadline=100), J("c10", 3, depth=6, deadline=100), J("c10", 4, depth=6, deadline=100), J("c10", 5, depth=6, deadline=100), J("c10long"), J("c10long", 1)],
+        "thorough": [J("c10", c, depth=10, deadline=1200, max_states=30000000) for c in range(6)] + [J("c10long"), J("c10long", 1, deadline=600)],
     },
 }
 
@@ -134,21 +140,23 @@ SLOW = {"slow": 1}      # 100 Hz timer, all times of the alphabet in units of 10
 PROPS["C11"] = {
     "level": "model_checking",
     "technique": "explicit-state BFS over heartbeat frames, 1016h writes, counter/state queries and ticks against a reference monitor per consumer entry",
-    "text": "Consumer tables of 1..4 entries (6 initial configurations). Events: heartbeat frames of two monitored nodes and one unmonitored node with states {0,4,5,127}; SDO write of {node X|Y, time 0|2|3} and {0,0} to every entry followed by a read-back; CONmtGetHbEvents and CONmtLastHbState for the three nodes; tick; 765 ticks of silence (counter saturation); NMT stop/start/reset communication. After every step the CONmtHbConsEvent / CONmtHbConsChange callbacks (multiset per node), the return values of the queries, the SDO verdict (0604 0043h and no change for a node that is already monitored, acceptance otherwise) and the read-back value are compared with the reference; entries not addressed by a write must keep their monitoring. Two of the tables run once more on a 100 Hz timer with every time given in units of 10 ms. A seventh table has four entries with four distinct times (2, 3, 4, 6 ticks) and an alphabet reduced to the four heartbeats and the tick, explored to depth 9 (13): four consumer timers pending at once, a re-armed one queued before, between and behind the others.",
+    "text": "Consumer tables of 1..4 entries (6 initial configurations). Events: heartbeat frames of two monitored nodes and one unmonitored node with states {0,4,5,127}; SDO write of {node X|Y, time 0|2|3} and {0,0} to every entry followed by a read-back; CONmtGetHbEvents and CONmtLastHbState for the three nodes; tick; 765 ticks of silence (counter saturation); NMT stop/start/reset communication. After every step the CONmtHbConsEvent / CONmtHbConsChange callbacks (multiset per node), the return values of the queries, the SDO verdict (0604 0043h and no change for a node that is already monitored, acceptance otherwise) and the read-back value are compared with the reference; entries not addressed by a write must keep their monitoring. Two of the tables run once more on a 100 Hz timer with every time given in units of 10 ms. A seventh table has four entries with four distinct times (2, 3, 4, 6 ticks) and an alphabet reduced to the four heartbeats and the tick, explored to depth 9 (13): four consumer timers pending at once, a re-armed one queued before, between and behind the others. Two tables are explored once more with the monitored node ids at the ends of the range (127, 126, 2, 3).",
     "note": "'already monitored' is read literally (any entry, including the written one, configured with that node and a non-zero time); depth-bounded",
     "jobs": {
         "quick": [J("c11", 0, depth=8, deadline=100), J("c11", 1, depth=6, deadline=100), J("c11", 2, depth=6, deadline=100), J("c11", 3, depth=5, deadline=100), J("c11", 4, depth=5, deadline=100), J("c11", 5, depth=5, deadline=100)] +
-                 [J("c11", 1, depth=6, deadline=100, opts=SLOW), J("c11", 5, depth=5, deadline=100, opts=SLOW), J("c11", 6, depth=9, deadline=100, allow_dead=True)],
+                 [J("c11", 1, depth=6, deadline=100, opts=SLOW), J("c11", 5, depth=5, deadline=100, opts=SLOW), J("c11", 6, depth=9, deadline=100, allow_dead=True),
+                  J("c11", 1, depth=6, deadline=100, opts={"edge": 1}), J("c11", 5, depth=5, deadline=100, opts={"edge": 1})],
         "thorough": [J("c11", 0, depth=14, deadline=1200), J("c11", 1, depth=9, deadline=1200, max_states=30000000), J("c11", 2, depth=9, deadline=1200, max_states=30000000),
                      J("c11", 3, depth=8, deadline=1200, max_states=30000000), J("c11", 4, depth=8, deadline=1200, max_states=30000000), J("c11", 5, depth=7, deadline=1200, max_states=30000000)] +
-                    [J("c11", 1, depth=9, deadline=1200, max_states=30000000, opts=SLOW), J("c11", 5, depth=7, deadline=1200, max_states=30000000, opts=SLOW), J("c11", 6, depth=13, deadline=1200, max_states=30000000, allow_dead=True)],
+                    [J("c11", 1, depth=9, deadline=1200, max_states=30000000, opts=SLOW), J("c11", 5, depth=7, deadline=1200, max_states=30000000, opts=SLOW), J("c11", 6, depth=13, deadline=1200, max_states=30000000, allow_dead=True),
+                     J("c11", 1, depth=8, deadline=900, max_states=30000000, opts={"edge": 1}), J("c11", 5, depth=6, deadline=900, max_states=30000000, opts={"edge": 1})],
     },
 }
 
 PROPS["C06"] = {
     "level": "exploration",
     "technique": "small-scope exhaustive enumeration (every sorted dictionary over a key universe, every 8/16-bit value, every buffer length) against a linear-scan reference, with exact-size heap arrays under AddressSanitizer",
-    "text": "Four exhaustive sweeps on the real CODict*/COObj* code: (0) lookup - every subset of a sorted universe of 10 keys (14 thorough) x entry flag patterns x max in {Num+1, Num+5}, probed with every universe key and its sub+-1/index+-1 neighbours under key flags {00,01,FF}, plus strided dictionaries of 11..300 entries; result compared by pointer identity with a linear scan; the CO_OBJ array is a heap block of exactly Num+1 elements so that any access past the end marker is an ASan report; (1) type init - dictionaries of 1..6 (12) entries where every entry counts its init calls, CONodeInit must call each exactly once; (2) typed access - 12 entries (width 1/2/4 x direct/referenced x plain/node-id), all 256/65536 values, listed 32-bit patterns, node ids {1,2,63,127} (1..127), every access width against every entry width, stored raw value and untouched neighbours; (3) buffers - domains and strings of 13 (308) sizes x every length 0..4100: bytes moved == min(len,size), guards intact, second call restarts at offset 0.",
+    "text": "Four exhaustive sweeps on the real CODict*/COObj* code: (0) lookup - every subset of a sorted universe of 10 keys (14 thorough) x entry flag patterns x max in {Num+1, Num+5}, probed with every universe key and its sub+-1/index+-1 neighbours under key flags {00,01,FF}, plus strided dictionaries of 11..300 entries; result compared by pointer identity with a linear scan; the CO_OBJ array is a heap block of exactly Num+1 elements so that any access past the end marker is an ASan report; (1) type init - dictionaries of 1..6 (12) entries where every entry counts its init calls, CONodeInit must call each exactly once; (2) typed access - 12 entries (width 1/2/4 x direct/referenced x plain/node-id), all 256/65536 values, listed 32-bit patterns, node ids {1,2,63,127} (1..127), every access width against every entry width, stored raw value and untouched neighbours; (3) buffers - domains and strings of 13 (308) sizes x every length 0..4100: bytes moved == min(len,size), guards intact, second call restarts at offset 0. Type initialisation at the keys the services look up themselves: one or two counting entries at any of 35 service keys (1003h, 1005h..1007h, 1010h..1012h, 1014h..1017h, 1019h, 1200h/1201h, 1280h, 1400h, 1600h, 1800h, 1A00h, 1F80h with their sub-indices), all 35 at once, with and without an emergency table - each initialised exactly once.",
     "note": "finite listed spaces enumerated completely; 32-bit values are a listed boundary set; a refused access only has to return an error (the code is not fixed by the statement)",
     "rule": "cases are the elements of the four finite spaces described in the level text; non-trivial = the call under test moved data or found an entry; distinct = distinct outcome hashes",
     "jobs": {
@@ -159,14 +167,17 @@ PROPS["C06"] = {
                "thorough": "universe 14 keys (16384 x 6) + strided lengths 11..300; node ids 1..127; 308 buffer sizes x lengths 0..4100"},
 }
 
+# builds in which the RPDO and TPDO counts differ: the synchronous RPDO has a number above the TPDO count, resp. the second synchronous TPDO one above the RPDO count
+def ASYM16(dl):
+    return [J("c16", c, defs=["CO_TPDO_N=2"], depth=60, deadline=dl, opts={"rnum": 3, "tlast": 1}) for c in (1, 2)] + [J("c16", c, defs=["CO_RPDO_N=2"], depth=60, deadline=dl, opts={"rnum": 1, "tlast": 3}) for c in (1, 2)]
 PROPS["C16"] = {
     "level": "model_checking",
     "technique": "explicit-state BFS to a fixpoint over 1005h/1006h writes, SYNC and near-miss frames, NMT commands, ticks and error reads, against a reference model {identifier, producing, period, phase}",
-    "text": "Six initial configurations of (1005h, 1006h, timer frequency), one of them the usual EDS default 'producer bit set, period 0'. 21 events: SDO write 1005h in {80h, 81h, 40000080h, 40000081h}; SDO write 1006h in {0, 1, 2, 3 ticks, half a tick}; frames on 80h, 81h, 7Fh; NMT start/stop/pre-op/reset communication; tick; CONodeGetErr (the application reading - or not reading - the sticky node error); RPDO frames for a synchronous RPDO and a local write of its object; reaction probes are a type-1 TPDO (#0), a type-2 TPDO (#3) and the synchronous RPDO - each recognised SYNC must advance each of them exactly once. After every step: the produced SYNC frames (identifier, DLC 0, exactly every period counted from the start/re-timing write or reset, only in PRE-OP/OP), the SDO verdicts (0609 0030h with the old value kept for a CAN-ID change while producing and for a period below the timer resolution; read-back otherwise), recognition of received SYNC (type-1 TPDO sent exactly once in OPERATIONAL, buffered synchronous RPDO applied exactly once, near-miss identifiers handed to the application). The reachable state set is closed (fixpoint) for all five configurations.",
+    "text": "Six initial configurations of (1005h, 1006h, timer frequency), one of them the usual EDS default 'producer bit set, period 0'. 21 events: SDO write 1005h in {80h, 81h, 40000080h, 40000081h}; SDO write 1006h in {0, 1, 2, 3 ticks, half a tick}; frames on 80h, 81h, 7Fh; NMT start/stop/pre-op/reset communication; tick; CONodeGetErr (the application reading - or not reading - the sticky node error); RPDO frames for a synchronous RPDO and a local write of its object; reaction probes are a type-1 TPDO (#0), a type-2 TPDO (#3) and the synchronous RPDO - each recognised SYNC must advance each of them exactly once. After every step: the produced SYNC frames (identifier, DLC 0, exactly every period counted from the start/re-timing write or reset, only in PRE-OP/OP), the SDO verdicts (0609 0030h with the old value kept for a CAN-ID change while producing and for a period below the timer resolution; read-back otherwise), recognition of received SYNC (type-1 TPDO sent exactly once in OPERATIONAL, buffered synchronous RPDO applied exactly once, near-miss identifiers handed to the application). The reachable state set is closed (fixpoint) for all five configurations. Two configurations are explored again in builds whose RPDO and TPDO counts differ (CO_TPDO_N=2 with the synchronous RPDO as number 3, CO_RPDO_N=2 with the second synchronous TPDO as number 3).",
     "note": "periods are whole ticks up to 3 ticks; enabling the producer while 1006h holds no usable period and writing 0 to 1006h while producing may be refused or accepted (the statement leaves it open); a frame buffered before an NMT change may be applied at the next SYNC in OPERATIONAL or dropped; periods above 6.5 s are covered by a dedicated sweep (9 periods from 6 s to 100 s at 100 Hz and 1 kHz: emissions exactly at period and 2 x period), not by the BFS",
     "jobs": {
-        "quick": [J("c16", c, depth=60, deadline=120) for c in range(6)] + [J("c16long")],
-        "thorough": [J("c16", c, depth=60, deadline=600) for c in range(6)] + [J("c16long")],
+        "quick": [J("c16", c, depth=60, deadline=120) for c in range(6)] + [J("c16long")] + ASYM16(120),
+        "thorough": [J("c16", c, depth=60, deadline=600) for c in range(6)] + [J("c16long")] + ASYM16(600),
     },
 }
 
@@ -199,11 +210,11 @@ PROPS["C13"] = {
 PROPS["C14"] = {
     "level": "model_checking",
     "technique": "explicit-state BFS over expedited SDO write histories to the PDO communication and mapping parameters against a reference model of the CiA 301 preconditions, with an activation probe at every activation",
-    "text": "Four RPDOs and four TPDOs; the pair number n under reconfiguration is 0, 1 or 3 (configurations: n x {PRE-OPERATIONAL, started OPERATIONAL}, plus pair 1 with both PDOs synchronous from the start), the three other pairs are valid bystanders on their own identifiers and objects. 94 events: per PDO the COB-ID written with {valid, invalid, other id valid, other id invalid, extended, RTR-allowed/extended}; transmission type {1,254,255}; mapping count {0,1,2,8,9}; mapping entries 1, 2 and 8 written with {mappable 8/16/32-bit object, non-mappable, read-only, write-only, non-existing object, 64-bit length, length != object width}; NMT start / pre-op. Per step: accept/refuse verdict, the abort codes the property set fixes (0609 0030h, 0604 0041h, 0604 0042h), and the complete stored configuration (a refused write changes nothing). At every activation (entering OPERATIONAL, re-validation while OPERATIONAL) the PDO is probed: the TPDO frame has DLC = sum of the mapped bytes <= 8 and carries the mapped values, an RPDO frame writes exactly the mapped objects; public ObjNum/Size[] stay within 8; then, on a copy of the state, 8 ticks pass - a TPDO activated with a synchronous type must stay silent without SYNC, one activated as event-driven (its event time is 2 ms) must send, and a SYNC must produce exactly one frame of a type-1 TPDO (also after every COB-ID write of the RPDO with the same number: they share the SYNC table). After an invalidation while OPERATIONAL the PDO must neither transmit on a trigger nor take a frame on its old identifier, and after every COB-ID write and every entry into OPERATIONAL each bystander TPDO must still send exactly its configured frame and each bystander RPDO write exactly its object (index arithmetic 14xxh/16xxh/18xxh/1Axxh + n versus the runtime slot n).",
+    "text": "Four RPDOs and four TPDOs; the pair number n under reconfiguration is 0, 1 or 3 (configurations: n x {PRE-OPERATIONAL, started OPERATIONAL}, plus pair 1 with both PDOs synchronous from the start), the three other pairs are valid bystanders on their own identifiers and objects. 94 events: per PDO the COB-ID written with {valid, invalid, other id valid, other id invalid, extended, RTR-allowed/extended}; transmission type {1,254,255}; mapping count {0,1,2,8,9}; mapping entries 1, 2 and 8 written with {mappable 8/16/32-bit object, non-mappable, read-only, write-only, non-existing object, 64-bit length, length != object width}; NMT start / pre-op. Per step: accept/refuse verdict, the abort codes the property set fixes (0609 0030h, 0604 0041h, 0604 0042h), and the complete stored configuration (a refused write changes nothing). At every activation (entering OPERATIONAL, re-validation while OPERATIONAL) the PDO is probed: the TPDO frame has DLC = sum of the mapped bytes <= 8 and carries the mapped values, an RPDO frame writes exactly the mapped objects; public ObjNum/Size[] stay within 8; then, on a copy of the state, 8 ticks pass - a TPDO activated with a synchronous type must stay silent without SYNC, one activated as event-driven (its event time is 2 ms) must send, and a SYNC must produce exactly one frame of a type-1 TPDO (also after every COB-ID write of the RPDO with the same number: they share the SYNC table). After an invalidation while OPERATIONAL the PDO must neither transmit on a trigger nor take a frame on its old identifier, and after every COB-ID write and every entry into OPERATIONAL each bystander TPDO must still send exactly its configured frame and each bystander RPDO write exactly its object (index arithmetic 14xxh/16xxh/18xxh/1Axxh + n versus the runtime slot n). Mapping procedure (c14map): for every ordered composition of 8-, 16-, 24- and 32-bit entries totalling <= 8 bytes (892 per direction) the client runs the CiA 301 procedure with expedited writes - invalidate, count 0, entries, count n, validate - in PRE-OPERATIONAL followed by NMT start and while OPERATIONAL; every write must be accepted and read back as written, then the TPDO frame must be the little-endian concatenation of the mapped values resp. an RPDO frame must put exactly its fields into the mapped objects (two value patterns with non-zero top bytes); every composition is also extended by one entry beyond 8 bytes: the count write must be refused with 0604 0042h, the count stays 0.",
     "note": "verdicts the statement leaves open are accepted either way: invalidating and changing the id in one write, rewriting the identical valid COB-ID, a count that covers an unset (zero) entry, mapping lengths that differ from the object width; the abort code is free for 'PDO is valid' / 'count is not zero' refusals; depth-bounded",
     "jobs": {
-        "quick": [J("c14", c, depth=6, deadline=100) for c in range(8)],
-        "thorough": [J("c14", c, depth=8, deadline=1200, max_states=20000000) for c in range(8)],
+        "quick": [J("c14", c, depth=6, deadline=100) for c in range(8)] + [J("c14map", 0), J("c14map", 1)],
+        "thorough": [J("c14", c, depth=8, deadline=1200, max_states=20000000) for c in range(8)] + [J("c14map", 0), J("c14map", 1)],
     },
 }
 
@@ -211,19 +222,21 @@ E8 = ["CO_EMCY_N=8"]; S15 = {"nerr": 3, "big": 0}
 PROPS["C15"] = {
     "level": "model_checking",
     "technique": "explicit-state BFS over error set/clear/reset calls, 1003h/1014h writes, read-outs and NMT changes against a reference EMCY model (fixpoint for history depths 0..3)",
-    "text": "12 configurations: emergency tables with register classes {0,1,1,2,7} and {1,1,1,1,1} x history depth {0 (absent),1,2,3,8}, one with 1014h initially disabled, one left in INIT; CO_EMCY_N 8 and 32. Events: COEmcySet(e, with/without manufacturer field) and COEmcyClr(e) for 5 errors and one index >= CO_EMCY_N (the five errors sit in table rows 0..4 and, in three further layouts of the 32-row build, in rows {5,10,18,9,3}, {7,8,15,16,24}, {6,13,14,22,29} - neighbours across the borders of the status bytes, particular bit positions); COEmcyReset(silent 0/1); SDO write 1003h:0 with 0 and 1; SDO reads of 1003h:0..depth+1 and 1001h; COEmcyGet/COEmcyCnt; NMT stop/start/pre-op; SDO write 1014h disable/enable; a burst macro-step (three activations) for the depth-8 ring. After every step: EMCY frames (identifier from 1014h, code, register, manufacturer bytes; one per real transition, none while 1014h is invalid or the NMT state forbids), 1001h, COEmcyCnt, COEmcyGet of all slots, 1003h count and entries newest-first, SDO verdicts. Closed state space (fixpoint) for history depths 0..3, depth-bounded for depth 8.",
+    "text": "12 configurations: emergency tables with register classes {0,1,1,2,7} and {1,1,1,1,1} x history depth {0 (absent),1,2,3,8}, one with 1014h initially disabled, one left in INIT; CO_EMCY_N 8 and 32. Events: COEmcySet(e, with/without manufacturer field) and COEmcyClr(e) for 5 errors and one index >= CO_EMCY_N (the five errors sit in table rows 0..4 and, in three further layouts of the 32-row build, in rows {5,10,18,9,3}, {7,8,15,16,24}, {6,13,14,22,29} - neighbours across the borders of the status bytes, particular bit positions); COEmcyReset(silent 0/1); SDO write 1003h:0 with 0 and 1; SDO reads of 1003h:0..depth+1 and 1001h; COEmcyGet/COEmcyCnt; NMT stop/start/pre-op; SDO write 1014h disable/enable; a burst macro-step (three activations) for the depth-8 ring. After every step: EMCY frames (identifier from 1014h, code, register, manufacturer bytes; one per real transition, none while 1014h is invalid or the NMT state forbids), 1001h, COEmcyCnt, COEmcyGet of all slots, 1003h count and entries newest-first, SDO verdicts. Closed state space (fixpoint) for history depths 0..3, depth-bounded for depth 8. Long histories: with the additional event '255 activations' (85 bursts, every sub-step judged) the closed state spaces of depths 1 and 2 (thorough) and bounded explorations of depths 3 and 8 contain histories of more than 256 and 512 activations without a clear of 1003h.",
     "note": "an index >= CO_EMCY_N is ignored or treated as the last row (both accepted, then full consistency required); the register byte of non-silent-reset frames may be any value reachable while clearing; reads above the current count and the abort code of a refused 1003h:0 write are not judged",
     "jobs": {
         "quick":    [J("c15", c, defs=E8, depth=40, deadline=100) for c in (0, 1, 2, 5, 6, 7, 10, 11)] +
                     [J("c15", c, defs=E8, depth=6, deadline=100) for c in (3, 4, 8, 9)] +
                     [J("c15", 2, depth=40, deadline=100), J("c15", 8, depth=6, deadline=100), J("c15", 4, depth=5, deadline=100)] +
-                    [J("c15", 2, depth=40, deadline=100, opts={"layout": l}) for l in (1, 2, 3)],
+                    [J("c15", 2, depth=40, deadline=100, opts={"layout": l}) for l in (1, 2, 3)] +
+                    [J("c15", 1, defs=E8, depth=40, deadline=100, opts={"long": 1}), J("c15", 4, defs=E8, depth=3, deadline=100, opts={"long": 1})],
         "thorough": [J("c15", c, defs=E8, depth=40, deadline=850) for c in (0, 1, 2, 5, 6, 7, 10, 11)] +
                     [J("c15", c, defs=E8, depth=40, deadline=850, max_states=8000000) for c in (3, 8)] +
                     [J("c15", c, defs=E8, depth=7, deadline=850, max_states=20000000) for c in (4, 9)] +
                     [J("c15", c, defs=E8, depth=10, deadline=850, max_states=20000000, opts=S15) for c in (4, 9)] +
                     [J("c15", 3, depth=40, deadline=850, max_states=8000000), J("c15", 7, depth=40, deadline=850), J("c15", 4, depth=7, deadline=850, max_states=20000000)] +
-                    [J("c15", c, depth=40, deadline=850, max_states=8000000, opts={"layout": l}) for l in (1, 2, 3) for c in (2, 7)],
+                    [J("c15", c, depth=40, deadline=850, max_states=8000000, opts={"layout": l}) for l in (1, 2, 3) for c in (2, 7)] +
+                    [J("c15", c, defs=E8, depth=40, deadline=850, max_states=8000000, opts={"long": 1}) for c in (1, 2)] + [J("c15", 3, defs=E8, depth=5, deadline=850, max_states=8000000, opts={"long": 1}), J("c15", 4, defs=E8, depth=4, deadline=850, max_states=8000000, opts={"long": 1})],
     },
 }
 
@@ -264,22 +277,22 @@ CL2 = ["CO_CSDO_N=2", "C19_CLIENT=1"]
 PROPS["C19"] = {
     "level": "model_checking",
     "technique": "deviation-bounded exhaustive enumeration of SDO server behaviours against the real SDO client (sequences of back-to-back transfers, one or two deviations placed at every response step), reference client/server with callback, buffer-guard and timer-pool accounting",
-    "text": "The harness plays the SDO server for client 0: a conforming reference server (expedited for <= 4 bytes, segmented otherwise, junk in unused bytes) plus 16 deviation kinds that can be placed at every response step k of a transfer: abort with matching multiplexer (an ordinary code, and each of the six codes the client generates itself: 0504 0000h, 0503 0000h, 0504 0001h, 0604 0043h, 0607 0012h, 0607 0013h) / other-index / other-sub-index multiplexer, silence, late answer while idle, late answer into the next transfer, wrong toggle, four foreign response types per phase, announced size +-1, expedited answer to a segmented request and vice versa, more data than announced (missing c bit + extra segments, over-long last segment), early c bit, request while busy (both API calls), five kinds of response while idle. A case is a sequence of up to 2 (quick) / 3 (thorough) transfers - direction x every size 1..300, 889, 1000, 1999, 2000 x timing profile (timeout, server delay) in {(2,0),(2,1),(5,0),(5,4)} ticks; uploads additionally from servers that put only 6 (every size) or 4 or 1 (sizes <= 40) data bytes into their non-final segments - separated by idle gaps {0, timeout-1, timeout, timeout+1}, with <= 1 (quick) / <= 2 (thorough) deviations per sequence; plus a 70 s timeout (silent server and a server answering after 65.6 s), a long-timeout transfer behind a short one, and a disabled client (1280h:1/:2 bit 31). The smallest and largest size shards, the probe-pair part and the special part are repeated in a build with two clients (CO_CSDO_N=2) in which the transfers run on client 1 (1281h, server node 6) while client 0 is an idle bystander. User buffers are exact-size heap blocks GUARD|size|GUARD checked after every frame. Oracle per step: request frames on 605h equal the reference client's (initiate, announced size, toggle, n, c, data in order); exactly one completion callback per accepted request with code 0 / the server's abort code / 0504 0000h plus exactly one abort frame after [timeout, timeout+1] ticks without a response; upload buffer equals the server's bytes (re-checked at the end of the sequence); busy => CO_ERR_SDO_BUSY without effect; disabled => refused without frame, callback or timer; responses while idle have no effect; timer action and event occupancy return to the pre-request value; nothing happens in an idle tail after the last transfer. Three configurations run once more on a 100 Hz timer (timeouts in units of 10 ms) and once more with a timer pool of exactly one timer (all the client needs).",
+    "text": "The harness plays the SDO server for client 0: a conforming reference server (expedited for <= 4 bytes, segmented otherwise, junk in unused bytes) plus 16 deviation kinds that can be placed at every response step k of a transfer: abort with matching multiplexer (an ordinary code, and each of the six codes the client generates itself: 0504 0000h, 0503 0000h, 0504 0001h, 0604 0043h, 0607 0012h, 0607 0013h) / other-index / other-sub-index multiplexer, silence, late answer while idle, late answer into the next transfer, wrong toggle, four foreign response types per phase, announced size +-1, expedited answer to a segmented request and vice versa, more data than announced (missing c bit + extra segments, over-long last segment), early c bit, request while busy (both API calls), five kinds of response while idle. A case is a sequence of up to 2 (quick) / 3 (thorough) transfers - direction x every size 1..300, 889, 1000, 1999, 2000 x timing profile (timeout, server delay) in {(2,0),(2,1),(5,0),(5,4)} ticks; uploads additionally from servers that put only 6 (every size) or 4 or 1 (sizes <= 40) data bytes into their non-final segments - separated by idle gaps {0, timeout-1, timeout, timeout+1}, with <= 1 (quick) / <= 2 (thorough) deviations per sequence; plus a 70 s timeout (silent server and a server answering after 65.6 s), a long-timeout transfer behind a short one, and a disabled client (1280h:1/:2 bit 31). The smallest and largest size shards, the probe-pair part and the special part are repeated in a build with two clients (CO_CSDO_N=2) in which the transfers run on client 1 (1281h, server node 6) while client 0 is an idle bystander. User buffers are exact-size heap blocks GUARD|size|GUARD checked after every frame. Oracle per step: request frames on 605h equal the reference client's (initiate, announced size, toggle, n, c, data in order); exactly one completion callback per accepted request with code 0 / the server's abort code / 0504 0000h plus exactly one abort frame after [timeout, timeout+1] ticks without a response; upload buffer equals the server's bytes (re-checked at the end of the sequence); busy => CO_ERR_SDO_BUSY without effect; disabled => refused without frame, callback or timer; responses while idle have no effect; timer action and event occupancy return to the pre-request value; nothing happens in an idle tail after the last transfer. Three configurations run once more on a 100 Hz timer (timeouts in units of 10 ms) and once more with a timer pool of exactly one timer (all the client needs). Two configurations run once more with another timer user next to the client: with every accepted request of a 5-tick timeout the application arms a timer that is due earlier and deletes it two ticks later (appt=1), or a one-tick timer that elapses on its own (appt=2), so that the timeout is not the head of the timer list and inherits time from the event before it.",
     "note": "where CiA 301 does not fix the client's reaction an allowed set is used: a malformed response may be ignored (then the timeout path is checked) or end the transfer once with a non-zero code and at most one abort frame - never code 0; an object smaller than the buffer or a segmented answer to a <= 4-byte upload may complete with the server's bytes as a prefix or be refused; an abort with a foreign multiplexer may be ignored or taken. The timeout is per response. NMT resets during a transfer are C20's. Second/third transfers after a deviation use 8 probe transfers, not every size",
     "jobs": {
-        "quick": [J("c19", c, deadline=150) for c in range(26)] + [J("c19", c, defs=CL2, deadline=150) for c in (0, 1, 14, 15, 24, 25)] + [J("c19", c, deadline=150, opts=SLOW) for c in (0, 1, 24)] + [J("c19", c, deadline=150, opts={"pool": 1}) for c in (0, 1, 24)],
-        "thorough": [J("c19", c, deadline=550) for c in range(26)] + [J("c19", c, defs=CL2, deadline=550) for c in (0, 1, 14, 15, 24, 25)] + [J("c19", c, deadline=550, opts=SLOW) for c in (0, 1, 24)] + [J("c19", c, deadline=550, opts={"pool": 1}) for c in (0, 1, 24)],
+        "quick": [J("c19", c, deadline=150) for c in range(26)] + [J("c19", c, defs=CL2, deadline=150) for c in (0, 1, 14, 15, 24, 25)] + [J("c19", c, deadline=150, opts=SLOW) for c in (0, 1, 24)] + [J("c19", c, deadline=150, opts={"pool": 1}) for c in (0, 1, 24)] + [J("c19", c, deadline=150, opts={"appt": a}) for c in (0, 24) for a in (1, 2)],
+        "thorough": [J("c19", c, deadline=550) for c in range(26)] + [J("c19", c, defs=CL2, deadline=550) for c in (0, 1, 14, 15, 24, 25)] + [J("c19", c, deadline=550, opts=SLOW) for c in (0, 1, 24)] + [J("c19", c, deadline=550, opts={"pool": 1}) for c in (0, 1, 24)] + [J("c19", c, deadline=550, opts={"appt": a}) for c in (0, 1, 24) for a in (1, 2)],
     },
 }
 
 PROPS["C20"] = {
     "level": "model_checking",
     "technique": "metamorphic differential exploration: BFS over a mixed history alphabet; in every reached state the node after an NMT reset is compared, under every probe sequence, with a freshly initialised node holding the same dictionary values (the implementation is its own reference)",
-    "text": "Node with heartbeat producer and two consumers, SYNC (consumer or producer), EMCY, an asynchronous RPDO, an event-driven and a synchronous TPDO, SDO server, SDO client, LSS, an application timer; two further configurations keep 1017h in a communication parameter group with an NVM image (1010h:1, event 'save'), so that RAM and NVM differ at the reset and the fresh node loads the NVM image. 36 (37) history events: ticks; SDO writes to 1017h, 1016h, 1005h, 1006h, 1014h, 1800h:1/:3/:5; heartbeat frames; SDO transfers left open in every phase (segmented and block, up and down); a busy SDO client and its response; COEmcySet/Clr of error 2 and COEmcySet of error 9 (another status byte); LSS configure node-id + store; NMT start/stop/pre-op; application timer create/delete; RPDO frame; TPDO trigger. In every discovered state s (on copies): A = s followed by NMT reset communication (configurations 0,2) or reset node (1,3); B = the pristine pre-initialisation memory image into which the dictionary values of A (not the run-time fields next to them), the NVM image and the LSS store are copied, then CONodeInit + CONodeStart. For every probe sequence of length <= 2 (3) over 14 probes (SDO reads, SYNC, heartbeat of a monitored node, RPDO, NMT start, LSS inquiry, SDO client transfer, 4 ticks, segmented upload, COEmcySet, TPDO trigger, SDO write+read) the complete traces (frames per tick, callbacks, NMT mode, node id) of A and B must be equal; the timer slots in use after the reset must equal those of the fresh node plus the live application timers.",
+    "text": "Node with heartbeat producer and two consumers, SYNC (consumer or producer), EMCY, an asynchronous RPDO, an event-driven and a synchronous TPDO, SDO server, SDO client, LSS, an application timer; two further configurations keep 1017h in a communication parameter group with an NVM image (1010h:1, event 'save'), so that RAM and NVM differ at the reset and the fresh node loads the NVM image. 36 (37) history events: ticks; SDO writes to 1017h, 1016h, 1005h, 1006h, 1014h, 1800h:1/:3/:5; heartbeat frames; SDO transfers left open in every phase (segmented and block, up and down); a busy SDO client and its response; COEmcySet/Clr of error 2 and COEmcySet of error 9 (another status byte); LSS configure node-id + store; NMT start/stop/pre-op; application timer create/delete; RPDO frame; TPDO trigger. In every discovered state s (on copies): A = s followed by NMT reset communication (configurations 0,2) or reset node (1,3); B = the pristine pre-initialisation memory image into which the dictionary values of A (not the run-time fields next to them), the NVM image and the LSS store are copied, then CONodeInit + CONodeStart. For every probe sequence of length <= 2 (3) over 14 probes (SDO reads, SYNC, heartbeat of a monitored node, RPDO, NMT start, LSS inquiry, SDO client transfer, 4 ticks, segmented upload, COEmcySet, TPDO trigger, SDO write+read) the complete traces (frames per tick, callbacks, NMT mode, node id) of A and B must be equal; the timer slots in use after the reset must equal those of the fresh node plus the live application timers. Two configurations are explored again in a build with two SDO servers in which all SDO traffic of the histories (segmented and block transfers left open at the reset) and of the probes runs over the second server.",
     "note": "1003h (error history) is not part of the dictionary: whether a reset clears it is not fixed by the statement; application timer callbacks are removed from the traces; depth-bounded",
     "jobs": {
-        "quick": [J("c20", c, depth=4, deadline=100) for c in range(6)],
-        "thorough": [J("c20", c, depth=5, deadline=1500, max_states=5000000) for c in range(6)] + [J("c20", c, depth=3, deadline=1500, opts={"plen": 3}) for c in range(6)],
+        "quick": [J("c20", c, depth=4, deadline=100) for c in range(6)] + [J("c20", c, defs=["CO_SSDO_N=2"], depth=3, deadline=100, opts={"srv": 1}) for c in (0, 1)],
+        "thorough": [J("c20", c, depth=5, deadline=1500, max_states=5000000) for c in range(6)] + [J("c20", c, depth=3, deadline=1500, opts={"plen": 3}) for c in range(6)] + [J("c20", c, defs=["CO_SSDO_N=2"], depth=4, deadline=1200, max_states=5000000, opts={"srv": 1}) for c in (0, 1, 2)],
     },
 }
 
@@ -288,7 +301,7 @@ def S(d):
     x = dict(SAFE); x.update(d); return x
 def c01_jobs(quick):
     dl = 60 if quick else 900
-    jobs = [J("c01sub", c, deadline=dl) for c in range(16)]
+    jobs = [J("c01sub", c, deadline=dl) for c in range(16)] + [J("c01sub", c, deadline=max(dl, 100)) for c in range(16, 20)]
     # SDO cluster (scaled buffer to a fixpoint, real buffer, two servers, truncated frames)
     jobs += [J("c04", 0, defs=SC3, depth=60, deadline=dl, opts=S({"coarse": 1, "small": 1, "fewinit": 1, "dlc": 1})),
              J("c04", 0, defs=SC3, depth=3 if quick else 4, deadline=dl, opts=S({"small": 1, "fewinit": 1, "dlc": 1})),
@@ -319,7 +332,7 @@ def c01_jobs(quick):
 PROPS["C01"] = {
     "level": "model_checking",
     "technique": "explicit-state exploration of the sanitizer-instrumented implementation per service cluster (closed state space for the scaled SDO server, depth bounds elsewhere) plus an exhaustive sweep over all subsets of the optional dictionary groups; only the safety monitor judges",
-    "text": "Every exploration of every other property runs on an ASan+UBSan build with the safety monitor (sanitizer report, fatal-error callback, per-step CPU watchdog for unbounded loops, <= CO_SDO_BUF_SEG+2 frames per step, balanced timer lock) - C01 re-runs one representative of each cluster in safety-only mode with wider alphabets: (1) dictionary subsets: all 27648 combinations of {1003h, 1005h with/without 1006h or producing, 1014h, 1016h ok / count larger than the entries, 1017h, 1200h fixed / writable, 1280h, RPDO0 absent / communication record only / asynchronous / synchronous, RPDO1 synchronous, TPDO0 likewise, TPDO1} at three timer frequencies; for each, CONodeInit + start and every sequence of <= 2 (thorough: 3) of 56 events: NMT commands incl. DLC 0, ticks, SDO requests to every optional object incl. DLC 0 and 3, RPDO/SYNC/heartbeat/LSS/foreign frames with short DLC, TPDO triggers incl. out-of-range numbers, EMCY calls incl. an index beyond the table, SDO client request/response, failing CAN send, CAN read error, open segmented/block transfers; (2) SDO server: the closed state space of the 3-segment build and depth-bounded runs of the real 127-segment buffer and of CO_SSDO_N=2, each with truncated request frames added, a run whose state identity keeps the cursors and counters finished transfers leave behind, and the conforming download/upload dialogues of C02/C03 on the real buffer from the initial state and after completed or abandoned earlier transfers; (3) timer manager with the tick interrupt injected at every preemption point; (4) heartbeat consumer tables, heartbeat producer interference alphabet, all RPDO tables with a synchronous RPDO above an absent/asynchronous channel, all RPDO/TPDO mapping compositions incl. dummies, PDO reconfiguration histories, EMCY, LSS (full alphabet), parameter store/restore with NVM faults, the mixed reset alphabet of C20, the SDO client against every deviating server behaviour of C19 (smallest and largest size shards, both directions) and the NMT alphabet of C09 with a timer-driven TPDO; (5) the RPDO/SYNC, NMT, heartbeat consumer, TPDO, SDO server, SDO client and LSS explorations once more with a driver that passes the raw DLC code of the wire through (every full frame arrives with DLC 15).",
+    "text": "Every exploration of every other property runs on an ASan+UBSan build with the safety monitor (sanitizer report, fatal-error callback, per-step CPU watchdog for unbounded loops, <= CO_SDO_BUF_SEG+2 frames per step, balanced timer lock) - C01 re-runs one representative of each cluster in safety-only mode with wider alphabets: (1) dictionary subsets: all 27648 combinations of {1003h, 1005h with/without 1006h or producing, 1014h, 1016h ok / count larger than the entries, 1017h, 1200h fixed / writable, 1280h, RPDO0 absent / communication record only / asynchronous / synchronous, RPDO1 synchronous, TPDO0 likewise, TPDO1} at three timer frequencies; for each, CONodeInit + start and every sequence of <= 2 (thorough: 3) of 56 events: NMT commands incl. DLC 0, ticks, SDO requests to every optional object incl. DLC 0 and 3, RPDO/SYNC/heartbeat/LSS/foreign frames with short DLC, TPDO triggers incl. out-of-range numbers, EMCY calls incl. an index beyond the table, SDO client request/response, failing CAN send, CAN read error, open segmented/block transfers; (2) SDO server: the closed state space of the 3-segment build and depth-bounded runs of the real 127-segment buffer and of CO_SSDO_N=2, each with truncated request frames added, a run whose state identity keeps the cursors and counters finished transfers leave behind, and the conforming download/upload dialogues of C02/C03 on the real buffer from the initial state and after completed or abandoned earlier transfers; (3) timer manager with the tick interrupt injected at every preemption point; (4) heartbeat consumer tables, heartbeat producer interference alphabet, all RPDO tables with a synchronous RPDO above an absent/asynchronous channel, all RPDO/TPDO mapping compositions incl. dummies, PDO reconfiguration histories, EMCY, LSS (full alphabet), parameter store/restore with NVM faults, the mixed reset alphabet of C20, the SDO client against every deviating server behaviour of C19 (smallest and largest size shards, both directions) and the NMT alphabet of C09 with a timer-driven TPDO; (5) the RPDO/SYNC, NMT, heartbeat consumer, TPDO, SDO server, SDO client and LSS explorations once more with a driver that passes the raw DLC code of the wire through (every full frame arrives with DLC 15). (6) wide mapping records (c01sub cfg 16..19): the mapping record of TPDO 0 or RPDO 0 (asynchronous or synchronous) has 8, 9, 16 or 64 sub-entries of 1 or 8 bit each and a count of 8, 9, 16 or 64 that does not pass through the mapping-count type - a constant (EDS default), a plain UNSIGNED8 or the type's own variable - 768 worlds, every sequence of <= 3 events of the mixed alphabet in each.",
     "note": "payload values outside the representatives are not enumerated (control fields and sizes are); histories longer than the bounds where no fixpoint is reached; API misuse (NULL arguments, mode values outside the enum) is outside the statement; the watchdog treats 4 s of CPU time without progress as an unbounded loop",
     "jobs": {"quick": c01_jobs(True), "thorough": c01_jobs(False)},
 }
